@@ -332,6 +332,32 @@ def check(src, kind):
             count("payloads_checked")
         else:
             val = None
+        # numeric payloads carry the value written in the text (when the text is a plain literal
+        # without a numeric-literal error): a lossy integer/float encoding would show here
+        bad_num = any(k in ("INVALID_NUMERIC_LITERAL", "UNTERMINATED_HEX_NUMERIC_LITERAL") for k in err_names.get(i, []))
+        if tname == "INTEGER_LITERAL" and not bad_num:
+            want_int = None
+            if text.isdigit() and text.isascii():
+                want_int = int(text)
+            elif text[-1:] in ("x", "X") and text[:1].isdigit() and all(c in "0123456789abcdefABCDEF" for c in text[:-1]):
+                want_int = int(text[:-1], 16)
+            if want_int is not None and want_int < 2 ** 64:
+                count("integer_payloads_checked")
+                if not (isinstance(p, int) and not isinstance(p, bool) and p == want_int):
+                    finding("C20.payload-number|integer", "token %d %r payload %r expected %d" % (i, text, p, want_int), src)
+        elif tname in ("FLOAT_LITERAL", "FLOAT_EXPONENT_LITERAL") and not bad_num and text.isascii():
+            try:
+                want_f = float(text)
+            except ValueError:
+                want_f = None
+            if want_f is not None:
+                count("float_payloads_checked")
+                # msgpack may carry an integral float as float64 only; an int here is a contract break
+                if not (isinstance(p, float) and (p == want_f)):
+                    finding("C20.payload-number|float", "token %d %r payload %r expected %r" % (i, text, p, want_f), src)
+        elif tname == "MACRO_VAR_RESOLVE":
+            if not (isinstance(p, int) and text == "&" * (2 ** p if p < 32 else 1)):
+                finding("C20.payload-number|resolve", "token %d %r payload %r" % (i, text, p), src)
         unterminated = "UNTERMINATED_STRING_LITERAL" in err_names.get(i, [])
         exp = expected_payload(tname, text, unterminated)
         if tname == "MACRO_STRING" and val is not None:
